@@ -6,8 +6,11 @@
                                    model side also checks cval_wf cst and cprint cst = units
      S <w> <tree> <impl>           stringify: impl = text|dump|fix; M likewise from the model;
                                    S = (dump = dump (normalize tree)) && fix = 1 && rfc_ok text
-     R <w> <tree> <impl>           same with reals in the tree: the model cannot print reals, so M
-                                   is the implementation's text re-read by the model
+     R <w> <tree> <impl>           same with doubles in the tree (r<bits in hex>): the model prints them with
+                                   DigitModel.real_to_string (17 digits, Default format: JsonDigitC08.dtext); numbers
+                                   are compared up to their kind; S also wants, per double leaf, the hypotheses of
+                                   the C08 theorems on reals that are not proved from the formatter model:
+                                   finite, starts with a digit (head_digitb), RFC number (rfc_numb)
      H <w> <t1/t2/..> <impl>       texts parsed one after the other through ONE scratch stream; impl = dump1/dump2/..
      Z ...                         deep-nesting runs are judged by the check itself *)
 
@@ -48,6 +51,15 @@ exception Bad
 let units_tok (s : string) : n list = parse_list (if s = "" then "-" else s)
 let rest s = String.sub s 1 (String.length s - 1)
 
+let n_of_hex (s : string) : n =
+  let sixteen = n_of_int 16 in
+  let r = ref N0 in
+  String.iter (fun c ->
+      let d = match c with '0' .. '9' -> Char.code c - 48 | 'a' .. 'f' -> Char.code c - 87 | 'A' .. 'F' -> Char.code c - 55 | _ -> raise Bad in
+      r := N.add (N.mul !r sixteen) (n_of_int d)) s;
+  !r
+let real_leaves : n list ref = ref []
+
 let rec tree (tk : string array) (pos : int ref) : vt =
   if !pos >= Array.length tk then raise Bad;
   let t = tk.(!pos) in
@@ -76,7 +88,7 @@ let rec tree (tk : string array) (pos : int ref) : vt =
   | 'S' -> VStr (units_tok (rest t))
   | 'u' -> VNat (n_of_string (rest t))
   | 'i' -> VInt (z_of_string (rest t))
-  | 'r' -> VReal []
+  | 'r' -> let bits = n_of_hex (rest t) in real_leaves := bits :: !real_leaves; VReal (dtext bits)
   | 'T' -> VTrue
   | 'F' -> VFalse
   | 'N' -> VNull
@@ -208,7 +220,9 @@ let comp_json line =
     | [kind; w; term; impl] when kind = "S" || kind = "R" ->
       let w = n_of_string w in
       let tk = split_semis term in
+      real_leaves := [];
       let t = tree tk (ref 0) in
+      let leaves_ok = List.for_all (fun b -> finite_bits b && head_digitb (dtext b) && rfc_numb (dtext b)) !real_leaves in
       let expect = dump (normalize t) in
       (match String.split_on_char '|' impl with
        | [itext; idump; ifix] ->
@@ -217,12 +231,12 @@ let comp_json line =
             integral value reads back as an integer ("numbers equal in value" is C11's part) *)
          let numre = Str.regexp "\\(^\\|[[;:]\\)\\(u[0-9]+\\|i-?[0-9]+\\|R\\)" in
          let canon d = if kind = "R" then Str.global_replace numre "\\1#" d else d in
-         let verdict = (canon idump = canon expect) && ifix = "1" && rfc_ok iunits in
-         let mtext = if kind = "S" then stringify t else iunits in
+         let verdict = (canon idump = canon expect) && ifix = "1" && rfc_ok iunits && leaves_ok in
+         let mtext = stringify t in
          let mparsed = parse w mtext in
          let mfix =
            (match mparsed with
-            | JOk v when kind = "S" -> if dump v = expect then "1" else "0"   (* second text = first: see the proofs; here: reparsed = normalize *)
+            | JOk v -> if canon (dump v) = canon expect then "1" else "0"   (* second text = first: see the proofs; here: reparsed = normalize *)
             | _ -> ifix) in
          fmt_list mtext ^ "|" ^ dump_res mparsed ^ "|" ^ mfix ^ " " ^ fmt_bool verdict
        | _ -> "BADIMPL 0")
